@@ -14,6 +14,11 @@
 (*   <<"y", w>>      yield w   (w > 0 wait; 0 = yield None/0; negative)    *)
 (*   <<"kill", k>>   call kill(G[k]) from inside the body, then yield None *)
 (*   <<"start", k>>  call start(G[k]) from inside the body, then yield None*)
+(*   <<"state", k>>  query state(G[k]) from inside the body, then yield None*)
+(*   <<"kill!", k>> <<"start!", k>>  the same calls WITHOUT yielding: the   *)
+(*                   body goes on with its next step in the same frame     *)
+(* (k may be the coroutine itself: kill(self) marks it, start(self) is     *)
+(* refused with ValueError because the generator is executing)             *)
 (* falling off the end returns RetVal(g).  pc[g] is the generator's own    *)
 (* position, which is why a restarted coroutine carries on where it was.   *)
 (* One public call = one action; process(dt) is computed by the recursive  *)
@@ -33,7 +38,8 @@ CONSTANTS G,          \* sequence of coroutine ids (strings), e.g. <<"g1","g2","
           Dts,        \* dt values offered to Process (quarter units)
           WithKill,   \* BOOLEAN: include the top-level Kill action (C08 instances explore timing only)
           MaxTimer,   \* guard: frames are not generated once the shared timer would pass this
-          StartCancelsPendingKill
+          StartCancelsPendingKill,
+          FinishDropsKillMark   \* (D25) a coroutine that kills itself and returns in the same step leaves no pending mark
 
 VARIABLES aq, wh, gens, kq, timer, prom, pval, pc,
           st, elapsed, need, log, ret, bad, lastDt,
@@ -62,9 +68,9 @@ StateOf(s, g) == IF s.gens[g] = "none" \/ g \in s.kq THEN "TERMINATED"
 Without(q, g) == SelectSeq(q, LAMBDA x : x # g)
 Flag(s, b) == IF s.bad = "none" THEN [s EXCEPT !.bad = b] ELSE s
 
-\* start(g): <<state', result>>
-StartOp(s, g) ==
-    IF StateOf(s, g) # "TERMINATED" THEN <<s, "ValueError">>
+\* start(g): <<state', result>> ; runner = the coroutine whose body is executing the call ("none" from outside)
+StartOp(s, g, runner) ==
+    IF StateOf(s, g) # "TERMINATED" \/ g = runner THEN <<s, "ValueError">>
     ELSE LET s1 == IF g \in s.kq /\ StartCancelsPendingKill
                    THEN \* the pending kill is applied now: g leaves the queue it sits in, its old wait is forgotten
                         [s EXCEPT !.kq = @ \ {g}, !.aq = Without(@, g), !.wh = {p \in @ : p[2] # g}]
@@ -92,23 +98,28 @@ Wake(s, due) ==      \* due: sequence of heap entries to pop, in order
          Wake(IF g \in s1.kq THEN DropKilled(s1, g)
               ELSE [s1 EXCEPT !.aq = Append(@, g), !.gens[g] = "active", !.st[g] = "ACTIVE"], Tail(due))
 
-\* one next() on generator g (head of the deque); returns the new state (deque handling included)
+\* one next() on generator g (head of the deque): the body runs from pc[g] to its next yield or to its end
+RECURSIVE StepGen(_, _)
 StepGen(s, g) ==
     LET sc == Script[g] IN
     IF s.pc[g] > Len(sc)
     THEN \* StopIteration: the promise gets the value (None, here 0, for an already exhausted generator)
          LET v == IF s.pc[g] = Len(sc) + 1 THEN RetVal(g) ELSE 0 IN
          [s EXCEPT !.aq = Tail(@), !.gens[g] = "none", !.pval[g] = v, !.prom[g] = "none", !.st[g] = "TERMINATED",
+                   !.kq = IF FinishDropsKillMark THEN @ \ {g} ELSE @,
                    !.pc[g] = Len(sc) + 2,
                    \* an exhausted generator raises StopIteration at once: no body code runs ("exhausted" is a ghost entry)
                    !.log = Append(@, <<g, s.pc[g], IF s.pc[g] = Len(sc) + 1 THEN "return" ELSE "exhausted">>)]
     ELSE LET step == sc[s.pc[g]]
-             r == IF step[1] = "kill" THEN KillOp(s, G[step[2]])
-                  ELSE IF step[1] = "start" THEN StartOp(s, G[step[2]])
+             op == step[1]
+             r == IF op \in {"kill", "kill!"} THEN KillOp(s, G[step[2]])
+                  ELSE IF op \in {"start", "start!"} THEN StartOp(s, G[step[2]], g)
+                  ELSE IF op = "state" THEN <<s, StateOf(s, G[step[2]])>>
                   ELSE <<s, "-">>
              s1 == [r[1] EXCEPT !.pc[g] = @ + 1, !.log = Append(@, <<g, s.pc[g], r[2]>>)]
-             w == IF step[1] = "y" THEN step[2] ELSE 0 IN
-         IF w > 0
+             w == IF op = "y" THEN step[2] ELSE 0 IN
+         IF op \in {"kill!", "start!"} THEN StepGen(s1, g)
+         ELSE IF w > 0
          THEN [s1 EXCEPT !.aq = Tail(@), !.wh = @ \cup {<<w + s1.timer, g>>}, !.gens[g] = "waiting",
                          !.st[g] = IF g \in s1.kq THEN "TERMINATED" ELSE "PAUSED", !.elapsed[g] = 0, !.need[g] = w]
          ELSE [s1 EXCEPT !.aq = Append(Tail(@), g)]           \* rotate(-1)
@@ -124,7 +135,7 @@ Run(s, fuel) ==
 Perms(S) == {f \in [1..Cardinality(S) -> S] : \A i, j \in 1..Cardinality(S) : i # j => f[i] # f[j]}
 Sorted(f) == \A i, j \in 1..Len(f) : i < j => f[i][1] <= f[j][1]
 
-Start(g) == /\ LET r == StartOp(Cur, g) IN Commit(r[1]) /\ ret' = r[2]
+Start(g) == /\ LET r == StartOp(Cur, g, "none") IN Commit(r[1]) /\ ret' = r[2]
             /\ UNCHANGED lastDt
 Kill(g) ==  /\ WithKill
             /\ LET r == KillOp(Cur, g) IN Commit(r[1]) /\ ret' = r[2]
@@ -151,7 +162,9 @@ Spec == Init /\ [][Next]_vars
 ----------------------------------------------------------------------------
 (* Declarative layer                                                       *)
 Ran(lg) == {lg[i][1] : i \in 1..Len(lg)}
-Times(lg, g) == Cardinality({i \in 1..Len(lg) : lg[i][1] = g})
+\* number of times g was advanced (one next() each): log entries of g that end a step - a yield or the return
+EndsStep(g, k) == k > Len(Script[g]) \/ Script[g][k][1] \notin {"kill!", "start!"}
+Times(lg, g) == Cardinality({i \in 1..Len(lg) : lg[i][1] = g /\ EndsStep(g, lg[i][2])})
 InFrame == \E dt \in Dts : Process(dt)
 Pos(q, g) == CHOOSE i \in 1..Len(q) : q[i] = g
 InQ(q, g) == \E i \in 1..Len(q) : q[i] = g
